@@ -59,7 +59,7 @@ BUDGET = {"quick": 600, "thorough": 5400}
 
 
 def catalogue():
-    names = [f"transform/{n}/{v}" for n in X.ALL for v in ("forward", "forward_after_data_", "inverse", "disp", "disp_resized", "disp_other", "points_world", "warp_image", "warp_other_grids", "pointset_transformer")]
+    names = [f"transform/{n}/{v}" for n in X.ALL for v in ("forward", "forward_after_data_", "inverse", "inverse_linked_views", "disp", "disp_resized", "disp_other", "points_world", "warp_image", "warp_other_grids", "pointset_transformer")]
     names += [f"fn/{n}" for n in FUNCS] + [f"loss/{n}" for n in LOSSES]
     return names
 
@@ -269,6 +269,16 @@ def transform_op(ctx, name, rep, info):
             return
         inv = t.inverse(link=bool(rep % 2), update_buffers=False)
         ev = lambda: inv(x)  # noqa: E731
+    elif variant == "inverse_linked_views":
+        if cls not in X.INVERTIBLE:
+            ctx.count("not_applicable")
+            return
+        # a linked inverse with freshly updated buffers, read through tensor() / disp() / forward() (no call hook):
+        # its buffers mirror the forward parameters and must stay attached to them
+        def ev():
+            t.update()  # the forward transform is current (as after its own evaluation in a training step)
+            inv = t.inverse(link=True, update_buffers=True)
+            return (inv.tensor(), inv.forward(x)) if inv.linear else (inv.disp(), inv.forward(x))
     elif variant == "disp":
         ev = lambda: t.update().disp()  # noqa: E731
     elif variant == "disp_resized":
